@@ -1,6 +1,606 @@
-//! Harness for property C14 (stub: not built yet).
+//! Harness for property C14 — "Service keys confine callers to their database; reads never write".
+//!
+//! * drives the real axum router (`anda_db_server::build_router`) in-process with
+//!   `tower::ServiceExt::oneshot`, over a [`store::RecordingStore`] (every backend access logged);
+//! * a case is a list of op lines (`cfg`, `req`, `restart`, `fixture`): a generated history of
+//!   key/database management followed by the complete request matrix
+//!   (route × method name incl. unknown × principal × encoding × addressed database);
+//! * **correspondence**: every line is also sent to the Lean driver `drv_c14`
+//!   (`Model/ServerAuth.handle`), canonical response lines are compared;
+//! * **oracle** (independent of the model, see `oracle.rs`): uniform byte-identical rejections that
+//!   touch no storage, confinement of per-database principals (storage paths, response contents,
+//!   `info` view), no storage mutation for any method the source labels `Read`.
+
+mod ops;
+mod oracle;
+mod store;
+mod wire;
+
+use ops::*;
+use std::collections::{BTreeMap, BTreeSet};
+use vh_common::serde_json::json;
+use vh_common::{Args, ModelProc, Report, Rng};
+
+pub const FROZEN_READ_ROOT: &[&str] = &["info", "db.list"];
+pub const FROZEN_READ_DB: &[&str] = &[
+    "info", "db.metadata", "db.stats", "db.get_extension", "collection.list", "collection.metadata", "collection.stats",
+    "collection.get_extension", "doc.get", "doc.get_many", "doc.exists", "doc.count", "doc.search", "doc.search_ids", "doc.query_ids",
+    "doc.query_last_ids",
+];
+
+/// The method tables as the source has them now (parsed from the generated Lean file, which the
+/// translator rewrote from /repo at the start of this check).
+#[derive(Clone, Debug, Default)]
+pub struct Tables {
+    /// method name -> (variant, is_read)
+    pub root: BTreeMap<String, (String, bool)>,
+    pub db: BTreeMap<String, (String, bool)>,
+}
+
+fn gen_file() -> std::path::PathBuf {
+    std::path::Path::new(env!("CARGO_MANIFEST_DIR")).join("../../lean/AndaVerif/Gen/ServerMethods.lean")
+}
+
+fn read_tables() -> Tables {
+    let text = std::fs::read_to_string(gen_file()).expect("Gen/ServerMethods.lean (run bin/translate/c14_server_methods.py)");
+    let mut t = Tables::default();
+    let mut cur: Option<&str> = None;
+    for line in text.lines() {
+        let l = line.trim();
+        if l.starts_with("def rootParse") {
+            cur = Some("root");
+        } else if l.starts_with("def dbParse") {
+            cur = Some("db");
+        } else if l.starts_with(']') {
+            cur = None;
+        } else if let Some(which) = cur
+            && l.starts_with('⟨')
+        {
+            let parts: Vec<&str> = l.trim_matches(|c| c == '⟨' || c == '⟩' || c == ',').split(',').map(|s| s.trim().trim_matches('⟩')).collect();
+            if parts.len() == 3 {
+                let name = parts[0].trim_matches('"').to_string();
+                let variant = parts[1].trim_matches('"').to_string();
+                let read = parts[2] == ".read";
+                if which == "root" { t.root.insert(name, (variant, read)) } else { t.db.insert(name, (variant, read)) };
+            }
+        }
+    }
+    assert!(!t.root.is_empty() && !t.db.is_empty(), "could not read the generated method tables");
+    t
+}
+
+// ---------------------------------------------------------------------------------------------
+// generator
+// ---------------------------------------------------------------------------------------------
+
+pub const NAME_A: &str = "tenant_qa7";
+pub const NAME_B: &str = "tenant_zb9";
+pub const NAME_C: &str = "tenant_mc3";
+pub const NAME_MISSING: &str = "nodb_yy4";
+pub const NAME_BAD: &str = "Bad-Name";
+pub const PRIMARY: &str = "prim_x5db";
+pub const ADMIN_KEY: &str = "adm_K3y9Zq";
+pub const TIMING_DUMMY_KEY: &str = "anda-db-server-timing-equalization-dummy";
+
+fn long_name() -> String {
+    "n".repeat(65)
+}
+
+fn admin_req(cfg: &CfgLine, method: &str, name: Option<&str>, key: Option<&str>, fresh: &str) -> Op {
+    Op::Req(Req {
+        verb: "POST".into(),
+        target: Target::Root,
+        auth: Some(format!("Bearer {}", cfg.admin.clone().unwrap_or_else(|| "whoever".into())).into_bytes()),
+        ct: Some(Enc::Cbor),
+        accept: None,
+        body: Body::Rpc { method: method.into(), name: name.map(String::from), key: key.map(String::from), fresh: fresh.into(), pvar: "d".into() },
+    })
+}
+
+struct Gen<'a> {
+    rng: &'a mut Rng,
+    cfg: CfgLine,
+    fresh_n: u32,
+    key_n: BTreeMap<String, u32>,
+    keys: BTreeSet<String>,
+}
+
+impl Gen<'_> {
+    fn fresh(&mut self) -> String {
+        self.fresh_n += 1;
+        format!("$g{}", self.fresh_n)
+    }
+    fn new_key(&mut self, db: &str) -> String {
+        let n = self.key_n.entry(db.to_string()).or_insert(0);
+        *n += 1;
+        let tag = match db {
+            NAME_A => "ka",
+            NAME_B => "kb",
+            NAME_C => "kc",
+            _ => "kx",
+        };
+        let k = format!("{tag}{n}_S3c");
+        self.keys.insert(k.clone());
+        k
+    }
+    fn pick_name(&mut self) -> String {
+        let pool = [NAME_A, NAME_A, NAME_A, NAME_B, NAME_B, NAME_B, NAME_C, NAME_C, PRIMARY, NAME_MISSING, NAME_BAD];
+        self.rng.pick(&pool).to_string()
+    }
+    fn history_op(&mut self, out: &mut Vec<Op>) {
+        let n = self.pick_name();
+        let fresh = self.fresh();
+        let cfg = self.cfg.clone();
+        match self.rng.below(20) {
+            0..=3 => {
+                let key = if self.rng.chance(2, 3) { Some(self.new_key(&n)) } else { None };
+                out.push(admin_req(&cfg, "db.create", Some(&n), key.as_deref(), &fresh));
+                if self.rng.chance(3, 4) {
+                    out.push(Op::Fixture(n));
+                }
+            }
+            4..=5 => out.push(admin_req(&cfg, "db.close", Some(&n), None, &fresh)),
+            6..=7 => out.push(admin_req(&cfg, "db.open", Some(&n), None, &fresh)),
+            8 => out.push(admin_req(&cfg, "db.connect", Some(&n), None, &fresh)),
+            9..=12 => {
+                // bind / rotate
+                let key = match self.rng.below(10) {
+                    0..=4 => Some(self.new_key(&n)),
+                    5..=6 => {
+                        self.keys.insert(fresh.clone());
+                        None // server-generated
+                    }
+                    7 => self.keys.iter().next().cloned(), // a key that may already be bound elsewhere
+                    8 => Some(if self.rng.chance(1, 2) { " ".to_string() } else { String::new() }),
+                    _ => cfg.admin.clone(), // the admin key itself
+                };
+                out.push(admin_req(&cfg, "db.set_api_key", Some(&n), key.as_deref(), &fresh));
+            }
+            13..=15 => out.push(admin_req(&cfg, "db.remove_api_key", Some(&n), None, &fresh)),
+            16 => out.push(Op::Restart),
+            17 => out.push(Op::Fixture(n)),
+            _ => {
+                // a per-database key holder tries a root-scope management call
+                if let Some(k) = self.keys.iter().next().cloned() {
+                    let m = *self.rng.pick(&["db.set_api_key", "db.remove_api_key", "db.close", "db.create"]);
+                    if let Op::Req(mut r) = admin_req(&cfg, m, Some(&n), Some("stolen_K"), &fresh) {
+                        r.auth = Some(format!("Bearer {k}").into_bytes());
+                        out.push(Op::Req(r));
+                    }
+                }
+            }
+        }
+    }
+}
+
+/// The complete request matrix for the current key universe.
+fn matrix(rng: &mut Rng, cfg: &CfgLine, keys: &BTreeSet<String>, tables: &Tables, fresh_base: &mut u32, full: bool) -> Vec<Op> {
+    let mut methods: BTreeSet<String> = tables.root.keys().chain(tables.db.keys()).cloned().collect();
+    for m in FROZEN_READ_ROOT.iter().chain(FROZEN_READ_DB.iter()) {
+        methods.insert(m.to_string());
+    }
+    for m in ["nope.method", "", "INFO", "db.delete", "doc.add "] {
+        methods.insert(m.to_string());
+    }
+    let admin = cfg.admin.clone().unwrap_or_else(|| "no_admin_cfg".into());
+    let mut principals: Vec<Option<Vec<u8>>> = vec![
+        None,
+        Some(format!("Bearer {admin}").into_bytes()),
+        Some(b"Bearer k_never_V4lid".to_vec()),
+        Some(format!("Bearer {TIMING_DUMMY_KEY}").into_bytes()),
+        // garbage: wrong scheme / case / spacing / raw key / non-ASCII byte / trailing blank / empty token
+        Some(format!("Basic {admin}").into_bytes()),
+        Some(format!("bearer {admin}").into_bytes()),
+        Some(format!("Bearer  {admin}").into_bytes()),
+        Some(admin.clone().into_bytes()),
+        Some([format!("Bearer {admin}").as_bytes(), &[0xff]].concat()),
+        Some(format!("Bearer {admin} ").into_bytes()),
+        Some(b"Bearer ".to_vec()),
+        Some(b"Bearer".to_vec()),
+    ];
+    for k in keys {
+        principals.push(Some(format!("Bearer {k}").into_bytes()));
+    }
+    let db_targets: Vec<Target> = vec![
+        Target::Db { name: NAME_A.into(), pct: false },
+        Target::Db { name: NAME_B.into(), pct: false },
+        Target::Db { name: NAME_C.into(), pct: false },
+        Target::Db { name: PRIMARY.into(), pct: false },
+        Target::Db { name: NAME_MISSING.into(), pct: false },
+        Target::Db { name: NAME_BAD.into(), pct: false },
+        Target::Db { name: long_name(), pct: false },
+        Target::Db { name: NAME_A.into(), pct: true },
+        Target::BadUtf8("/%ff".into()),
+        Target::Unrouted(format!("/{NAME_A}/x")),
+    ];
+    let root_names: Vec<Option<String>> =
+        vec![Some(NAME_A.into()), Some(NAME_B.into()), Some(NAME_C.into()), Some(PRIMARY.into()), Some(NAME_MISSING.into()), Some(NAME_BAD.into()), None];
+    let mut cells: Vec<[Op; 2]> = Vec::new();
+    let mut push = |target: Target, auth: &Option<Vec<u8>>, method: &str, name: Option<String>, key: Option<String>, pvar: &str, fb: &mut u32| {
+        *fb += 1;
+        let fresh = format!("$g{}", *fb);
+        let mk = |ct| {
+            Op::Req(Req {
+                verb: "POST".into(),
+                target: target.clone(),
+                auth: auth.clone(),
+                ct: Some(ct),
+                accept: None,
+                body: Body::Rpc { method: method.into(), name: name.clone(), key: key.clone(), fresh: fresh.clone(), pvar: pvar.into() },
+            })
+        };
+        cells.push([mk(Enc::Cbor), mk(Enc::Json)]);
+    };
+    for auth in &principals {
+        for m in &methods {
+            for t in &db_targets {
+                // the complete matrix uses the default parameters; two more parameter shapes are
+                // added for a rotating subset (parameters naming *another* database, null parameters)
+                push(t.clone(), auth, m, None, None, "d", fresh_base);
+                if full || rng.chance(1, 8) {
+                    push(t.clone(), auth, m, None, None, "x", fresh_base);
+                }
+                if full || rng.chance(1, 16) {
+                    push(t.clone(), auth, m, None, None, "n", fresh_base);
+                }
+            }
+            let root_method = tables.root.contains_key(m.as_str());
+            let takes_name = root_method && m != "info" && m != "db.list";
+            for n in &root_names {
+                if !takes_name && n.as_deref() != Some(NAME_A) {
+                    continue;
+                }
+                let key = if (m == "db.create" || m == "db.set_api_key") && rng.chance(1, 2) { Some(format!("km{}_S3c", rng.below(3))) } else { None };
+                push(Target::Root, auth, m, n.clone(), key, "d", fresh_base);
+            }
+        }
+    }
+    rng.shuffle(&mut cells);
+    let mut out: Vec<Op> = cells.into_iter().flatten().collect();
+    // a few cells outside the RPC routes and outside the two encodings
+    for auth in principals.iter().take(4) {
+        for (verb, target) in [
+            ("GET", Target::Root),
+            ("GET", Target::Db { name: NAME_A.into(), pct: false }),
+            ("PUT", Target::Root),
+            ("DELETE", Target::Db { name: NAME_A.into(), pct: false }),
+            ("GET", Target::Unrouted(format!("/{NAME_A}/{NAME_B}"))),
+        ] {
+            for accept in [None, Some(Enc::Cbor), Some(Enc::Json)] {
+                out.push(Op::Req(Req { verb: verb.into(), target: target.clone(), auth: auth.clone(), ct: None, accept, body: Body::Malformed }));
+            }
+        }
+        for t in [Target::Root, Target::Db { name: NAME_A.into(), pct: false }, Target::Db { name: NAME_MISSING.into(), pct: false }] {
+            // no / unknown content type, malformed body, Accept overriding the request encoding
+            for (ct, accept, malformed) in [(None, None, false), (None, Some(Enc::Json), false), (Some(Enc::Cbor), Some(Enc::Json), true), (Some(Enc::Json), Some(Enc::Cbor), false)] {
+                *fresh_base += 1;
+                let body = if malformed {
+                    Body::Malformed
+                } else {
+                    Body::Rpc { method: "info".into(), name: None, key: None, fresh: format!("$g{}", *fresh_base), pvar: "d".into() }
+                };
+                out.push(Op::Req(Req { verb: "POST".into(), target: t.clone(), auth: auth.clone(), ct, accept, body }));
+            }
+        }
+    }
+    out
+}
+
+fn gen_case(rng: &mut Rng, tables: &Tables, thorough: bool) -> Vec<String> {
+    let cfg = CfgLine {
+        admin: if rng.chance(7, 8) { Some(ADMIN_KEY.to_string()) } else { None },
+        primary: PRIMARY.to_string(),
+        max: *rng.pick(&[64usize, 64, 64, 64, 3, 2, 1]),
+    };
+    let mut g = Gen { rng, cfg: cfg.clone(), fresh_n: 0, key_n: BTreeMap::new(), keys: BTreeSet::new() };
+    let mut ops = vec![Op::Cfg(cfg.clone())];
+    if g.rng.chance(3, 4) {
+        // the standard two-tenant prelude, so that most matrices run against bound, populated databases
+        for n in [NAME_A, NAME_B] {
+            let k = g.new_key(n);
+            let f = g.fresh();
+            ops.push(admin_req(&cfg, "db.create", Some(n), Some(&k), &f));
+            ops.push(Op::Fixture(n.to_string()));
+        }
+    }
+    let len = g.rng.below(if thorough { 24 } else { 12 });
+    for _ in 0..len {
+        g.history_op(&mut ops);
+    }
+    let keys = g.keys.clone();
+    let mut fb = 1000;
+    let full = thorough && g.rng.chance(1, 4);
+    ops.extend(matrix(g.rng, &cfg, &keys, tables, &mut fb, full));
+    ops.iter().map(|o| o.to_line()).collect()
+}
+
+// ---------------------------------------------------------------------------------------------
+// running one case
+// ---------------------------------------------------------------------------------------------
+
+#[derive(Default)]
+pub struct CaseResult {
+    pub evals: Vec<(String, bool)>,
+    pub hits: BTreeMap<String, u64>,
+    pub model_compared: u64,
+    /// (what, index of the op, model, impl)
+    pub disagreements: Vec<(String, usize, String, String)>,
+    /// (key, what, index of the op, expected, observed)
+    pub oracle_failures: Vec<(String, String, usize, String, String)>,
+    pub panicked: Option<String>,
+}
+
+impl CaseResult {
+    fn hit(&mut self, k: &str) {
+        *self.hits.entry(k.to_string()).or_insert(0) += 1;
+    }
+}
+
+fn strip_note(s: &str) -> &str {
+    s.split(" # ").next().unwrap_or(s).trim()
+}
+
+/// Runs `lines` on the implementation (and on the model when a driver is given).
+pub fn run_case(lines: &[String], driver: Option<&std::path::Path>, tables: &Tables, stop_at_first: bool) -> CaseResult {
+    let mut res = CaseResult::default();
+    let mut model = driver.map(|p| ModelProc::spawn(p).expect("start model driver"));
+    let mut world: Option<wire::World> = None;
+    let mut orc = oracle::Oracle::new(tables.clone());
+    let mut prev: Option<(Req, wire::ImplResp, String)> = None;
+    for (i, line) in lines.iter().enumerate() {
+        let Some(op) = Op::parse(line) else {
+            res.disagreements.push(("unparsable op line".into(), i, String::new(), line.clone()));
+            break;
+        };
+        let failures_before = res.disagreements.len() + res.oracle_failures.len();
+        match &op {
+            Op::Cfg(c) => {
+                world = Some(wire::World::new(c.clone()));
+                orc.reset(c.clone());
+                if let Some(m) = model.as_mut() {
+                    let out = m.ask(line);
+                    if out != "ok" {
+                        res.disagreements.push(("cfg rejected by the model".into(), i, out, "ok".into()));
+                    }
+                }
+                res.hit("op:cfg");
+            }
+            Op::Fixture(n) => {
+                if let Some(w) = world.as_mut() {
+                    let ok = w.install_fixture(n);
+                    res.hit(if ok { "op:fixture" } else { "op:fixture-skipped" });
+                }
+            }
+            Op::Restart => {
+                let Some(w) = world.as_mut() else { continue };
+                let dbs = w.restart();
+                orc.on_restart();
+                res.hit("op:restart");
+                let imp = format!("ok dbs={}", show_names(&dbs));
+                if let Some(m) = model.as_mut() {
+                    let out = m.ask(line);
+                    res.model_compared += 1;
+                    if out != imp {
+                        res.disagreements.push(("restart: open databases differ".into(), i, out, imp.clone()));
+                    }
+                }
+                res.evals.push((format!("{}|restart|{imp}", orc.fingerprint()), true));
+            }
+            Op::Req(r) => {
+                let Some(w) = world.as_mut() else { continue };
+                let resp = w.exec(r);
+                let canon = wire::canon_impl(r, &resp);
+                res.hit(&format!("status:{}", resp.status));
+                res.hit(&format!("route:{}", r.route_class()));
+                if let Body::Rpc { method, .. } = &r.body {
+                    if tables.root.contains_key(method) || tables.db.contains_key(method) {
+                        res.hit(&format!("method:{method}"));
+                    } else {
+                        res.hit("method:<unknown>");
+                    }
+                }
+                let fp = orc.fingerprint();
+                // --- oracle ---
+                let before = res.oracle_failures.len();
+                for (key, what, expected, observed) in orc.check(r, &resp, w) {
+                    res.oracle_failures.push((key, what, i, expected, observed));
+                }
+                // encoding independence for the CBOR/JSON twin of a cell
+                if let Some((pr, presp, pcanon)) = &prev
+                    && pr.twin_of(r)
+                    && (resp.status == 401 || presp.status == 401 || orc.is_read(r))
+                {
+                    let a = pcanon.splitn(2, ' ').nth(1).unwrap_or("");
+                    let b = canon.splitn(2, ' ').nth(1).unwrap_or("");
+                    // error *messages* of parameter decoding legitimately differ between the two
+                    // decoders; status, code and class must not, and successful results must be equal
+                    let same_value = resp.status >= 400 && resp.status != 401 || wire::decoded(presp) == wire::decoded(&resp);
+                    if a != b || !same_value {
+                        res.oracle_failures.push((
+                            "encoding:differs".into(),
+                            "the CBOR and the JSON form of the same request are answered differently".into(),
+                            i,
+                            format!("{a} {:?}", wire::decoded(presp)),
+                            format!("{b} {:?}", wire::decoded(&resp)),
+                        ));
+                    }
+                }
+                orc.observe(r, &resp, w);
+                let nontrivial = resp.status != 401 && matches!(r.target, Target::Root | Target::Db { .. }) && r.verb == "POST" && resp.status < 400;
+                res.evals.push((format!("{fp}|{line}|{canon}"), nontrivial));
+                if res.oracle_failures.len() > before {
+                    res.hit("oracle:failed");
+                }
+                // --- correspondence ---
+                if let Some(m) = model.as_mut() {
+                    let out = m.ask(line);
+                    res.model_compared += 1;
+                    let mo = strip_note(&out);
+                    if let Some(why) = wire::compare(mo, &canon, r, &resp) {
+                        res.disagreements.push((why, i, out.clone(), canon.clone()));
+                    }
+                    if mo.contains(" dispatch ") {
+                        res.hit("model:dispatch");
+                    }
+                }
+                prev = Some((r.clone(), resp, canon));
+            }
+        }
+        if stop_at_first && res.disagreements.len() + res.oracle_failures.len() > failures_before {
+            break;
+        }
+        if res.disagreements.len() + res.oracle_failures.len() > 40 {
+            break;
+        }
+    }
+    res
+}
+
+fn run_case_caught(lines: &[String], driver: Option<&std::path::Path>, tables: &Tables, stop: bool) -> CaseResult {
+    let l = lines.to_vec();
+    let d = driver.map(|p| p.to_path_buf());
+    let t = tables.clone();
+    match std::panic::catch_unwind(move || run_case(&l, d.as_deref(), &t, stop)) {
+        Ok(r) => r,
+        Err(e) => {
+            let msg = e.downcast_ref::<String>().cloned().or_else(|| e.downcast_ref::<&str>().map(|s| s.to_string())).unwrap_or_else(|| "panic".into());
+            CaseResult { panicked: Some(msg), ..Default::default() }
+        }
+    }
+}
+
+/// Shrinks a failing case: keeps `cfg`, cuts after the failing op, then delta-debugs the middle.
+fn shrink_failure(lines: &[String], idx: usize, same: impl Fn(&CaseResult) -> bool, driver: Option<&std::path::Path>, tables: &Tables) -> Vec<String> {
+    let head = lines[0].clone();
+    let last = lines[idx].clone();
+    // the matrix cells before the failing one are almost always irrelevant: try without them first
+    let hist_end = lines.iter().position(|l| l.contains("$g1001")).unwrap_or(idx).min(idx);
+    let mut mid: Vec<String> = lines[1..hist_end.max(1)].to_vec();
+    let build = |mid: &[String]| {
+        let mut v = vec![head.clone()];
+        v.extend_from_slice(mid);
+        v.push(last.clone());
+        v
+    };
+    if !same(&run_case_caught(&build(&mid), driver, tables, false)) {
+        mid = lines[1..idx].to_vec();
+    }
+    let mid = vh_common::shrink(mid, |cand| same(&run_case_caught(&build(cand), driver, tables, false)), 120);
+    build(&mid)
+}
+
 fn main() {
-    let a = vh_common::Args::parse();
-    let r = vh_common::Report::new("C14", &a, "stub");
-    r.write(&a);
+    let args = Args::parse();
+    let tables = read_tables();
+    let mut report = Report::new(
+        "C14",
+        &args,
+        "an evaluation is one HTTP request sent through build_router; it is non-trivial when it is a POST to an RPC route that was \
+         authorised and answered 2xx/3xx (a handler ran or server state changed); distinct = distinct (bindings/open set, request line, canonical response)",
+    );
+    report.max_samples = 8;
+    // label drift against the frozen lists (the Lean obligation `read_methods_frozen` is the gate;
+    // this only makes the drift visible in the evidence)
+    for (scope, table, frozen) in [("root", &tables.root, FROZEN_READ_ROOT), ("db", &tables.db, FROZEN_READ_DB)] {
+        for (name, (_, read)) in table {
+            if *read != frozen.contains(&name.as_str()) {
+                report.notes.push(format!("label of {scope} method {name} differs from the frozen list (now {})", if *read { "Read" } else { "Mutating" }));
+            }
+        }
+    }
+    let driver = args.driver.clone();
+    if let Some(d) = &driver {
+        // the driver must have been built from the same generated tables
+        let mut m = ModelProc::spawn(d).expect("start model driver");
+        let t = m.ask("tables");
+        for (scope, table) in [("root", &tables.root), ("db", &tables.db)] {
+            for (name, (variant, read)) in table {
+                let needle = format!("{name}={}:{variant}", if *read { "R" } else { "M" });
+                if !t.contains(&needle) {
+                    report.disagreement("driver tables differ from Gen/ServerMethods.lean", &["tables".to_string()], &t, &format!("{scope}: {needle}"));
+                }
+            }
+        }
+    }
+
+    let mut cases: Vec<(String, Vec<String>)> = Vec::new();
+    if let Some(p) = &args.replay {
+        cases.push(("replay".into(), vh_common::read_replay(p)));
+    } else {
+        if let Some(c) = &args.corpus {
+            for (name, lines) in vh_common::read_corpus(c) {
+                cases.push((format!("corpus:{name}"), lines));
+            }
+        }
+        let n = args.extra.get("cases").and_then(|c| c.parse().ok()).unwrap_or_else(|| args.budget(28, 400));
+        for i in 0..n {
+            let mut rng = Rng::for_case(args.seed, i);
+            cases.push((format!("gen:{i}"), gen_case(&mut rng, &tables, args.thorough() || args.focus.is_some())));
+        }
+    }
+
+    // evaluate in parallel, merge in order
+    let threads = std::thread::available_parallelism().map(|n| n.get()).unwrap_or(4).min(16).min(cases.len().max(1));
+    let next = std::sync::atomic::AtomicUsize::new(0);
+    let results: std::sync::Mutex<BTreeMap<usize, CaseResult>> = std::sync::Mutex::new(BTreeMap::new());
+    std::thread::scope(|s| {
+        for _ in 0..threads {
+            s.spawn(|| {
+                loop {
+                    let i = next.fetch_add(1, std::sync::atomic::Ordering::SeqCst);
+                    if i >= cases.len() {
+                        break;
+                    }
+                    let r = run_case_caught(&cases[i].1, driver.as_deref(), &tables, false);
+                    results.lock().unwrap().insert(i, r);
+                }
+            });
+        }
+    });
+    let results = results.into_inner().unwrap();
+    let mut shrunk_keys: BTreeSet<String> = BTreeSet::new();
+    for (i, r) in &results {
+        let (name, lines) = &cases[*i];
+        for (canon, nt) in &r.evals {
+            report.case(canon, *nt);
+        }
+        for (k, v) in &r.hits {
+            report.hit_n(k, *v);
+        }
+        report.model_compared += r.model_compared;
+        if let Some(p) = &r.panicked {
+            report.oracle_failure("panic", &format!("the harness or the code under test panicked in {name}: {p}"), lines, "no panic", p);
+        }
+        if report.samples.len() < report.max_samples && lines.len() > 3 {
+            let k = (lines.len() / 3).min(lines.len() - 1);
+            report.sample(json!({"case": name, "ops": lines.len(), "first": &lines[..lines.len().min(4)], "some_cell": &lines[k]}));
+        }
+        for (what, idx, mo, im) in &r.disagreements {
+            let key = format!("dis:{what}");
+            if !shrunk_keys.insert(key.clone()) {
+                report.hit("disagreements_same_kind_not_shrunk");
+                continue;
+            }
+            let w = what.clone();
+            let small = shrink_failure(lines, *idx, |cr| cr.disagreements.iter().any(|d| d.0 == w), driver.as_deref(), &tables);
+            report.disagreement(&format!("{what} ({name}, op {idx})"), &small, mo, im);
+        }
+        for (key, what, idx, exp, obs) in &r.oracle_failures {
+            if !shrunk_keys.insert(format!("orc:{key}")) {
+                report.hit(&format!("oracle_failures_same_key_not_shrunk:{key}"));
+                continue;
+            }
+            let k = key.clone();
+            let small = shrink_failure(lines, *idx, |cr| cr.oracle_failures.iter().any(|f| f.0 == k), None, &tables);
+            report.oracle_failure(key, &format!("{what} ({name}, op {idx})"), &small, exp, obs);
+        }
+    }
+    report.exhaustive = false;
+    report.notes.push(format!(
+        "per case: a generated key/database-management history, then the complete matrix \
+         (methods {} x db-route targets 10 x principals >= 12 x encodings 2, plus the root route per addressed name); {} cases",
+        tables.root.len() + tables.db.len() + 4,
+        cases.len()
+    ));
+    report.write(&args);
 }
